@@ -55,6 +55,10 @@ CHECKS = {
                 text="BLAKE compression function for every Machine instantiation and through the run-time dispatcher (symbolic chaining value, block, counter) equals the final-round specification with recomputed constants; Default gives the specified IVs; finalize_into_dirty is specialised to EVERY buffer position (64 resp. 128 per variant, 384 in all) with the compression function as an uninterpreted symbol on both sides and must feed exactly the specified padded blocks, counters and output truncation. Together with C17 (counter arithmetic) this decides the property for all messages.",
                 note="Trusted: spec/blake.py (validated against the submission vectors), models of core slice functions; block-buffer is interpreted from its real MIR. Message lengths beyond the format limit are outside the domain.",
                 technique="value-graph normalisation of MIR vs reference; exhaustive case split over the buffer position (a selector the code only compares and indexes with)"),
+    "C05": dict(level=TV, design="3/C05",
+                text="UBI step, configuration block and initial tweak, the lazy final block (update on symbolic data for boundary position/length pairs), and finalize_into_dirty for every buffer position 0..=block size of seven instantiations (N = 1, 7, 32, 64, 128, 200; multi-block and odd outputs) are compared as value graphs with Skein 1.3, Threefish being the same uninterpreted symbol on both sides (decided separately by C09).",
+                note="Trusted: spec/skein.py (validated against the golden KATs), core models; block-buffer/block-padding interpreted from real MIR. Output sizes are type-level, so the named instantiations are covered, not all N.",
+                technique="compositional value-graph normalisation (Threefish as uninterpreted function), exhaustive split over buffer positions"),
 }
 
 REASONS = {}
